@@ -121,7 +121,8 @@ func streamC05(env *runEnv) {
 	r := rand.New(rand.NewSource(env.seed))
 	idp := newFakeIdP()
 	defer idp.close()
-	users := map[string]string{"1": "pw1", "2": "pw2", "bas:ic": "p:w", "DOM\\1": "pwd", "9@corp": "pw9"}
+	longPw := strings.Repeat("correct horse battery staple ", 420) // about 12 kB: the size of a Kerberos ticket with a large PAC
+	users := map[string]string{"1": "pw1", "2": "pw2", "bas:ic": "p:w", "DOM\\1": "pwd", "9@corp": "pw9", "long": longPw, "colon": "pa:ss:word"}
 	type mech struct {
 		openid, kerberos, local, ntlm bool
 		alias                         bool // the local mechanism spelled "basic"
@@ -177,6 +178,11 @@ func streamC05(env *runEnv) {
 			{auths: []string{"Basic "}}, {auths: []string{"NTLM "}}, {auths: []string{"Negotiate "}},
 			{auths: []string{be("1", "pw1")}, basic: "1:pw1"},
 			{auths: []string{be("1", "wrong")}, basic: "1:wrong"},
+			{auths: []string{be("long", longPw)}, basic: "long:" + longPw},
+			{auths: []string{be("long", longPw+"x")}, basic: "long:" + longPw + "x"},
+			{auths: []string{be("colon", "pa:ss:word")}, basic: "colon:pa:ss:word"},
+			{auths: []string{be("colon", "pa:ss")}, basic: "colon:pa:ss"},
+			{auths: []string{be("colon", "pa")}, basic: "colon:pa"},
 			{auths: []string{be("nobody", "pw1")}, basic: "nobody:pw1"},
 			{auths: []string{be("bas:ic", "p:w")}, basic: "bas:ic:p:w"},
 			{auths: []string{be("err", "x")}, basic: "err:x"},
